@@ -122,8 +122,28 @@ def _call(args):
     fn, a = args
     try:
         return fn(*a)
-    except Exception as e:  # an exception in harness code is infrastructure, reported upstream
+    except Exception as e:
+        tb = traceback.extract_tb(e.__traceback__)
+        inner = tb[-1].filename if tb else ""
+        if any(f.filename.startswith(REPO + "/amaranth_soc") for f in tb) and not inner.startswith(VERIF):
+            # raised inside the code under test while a scenario was being built or run: the scenario is
+            # unusable (the defect belongs to whichever property covers that code), not a harness crash
+            return {"skip": True, "code_exception": f"{type(e).__name__}: {str(e)[:160]} at {os.path.basename(inner)}:{tb[-1].lineno}",
+                    "fails": [], "stats": {}, "lines": [], "obs": []}
+        # an exception in harness code is infrastructure, reported upstream
         return {"harness_error": f"{type(e).__name__}: {e}", "tb": traceback.format_exc()[-1500:]}
+
+
+def unusable_guard(rep, prop, results, what):
+    """scenarios that raised inside the code under test: dropped; if they are more than a fifth of the
+    run, the property is reported as no longer shown to hold"""
+    bad = [r for r in results if r.get("code_exception")]
+    if bad and len(bad) * 5 > len(results):
+        rep.violation({"kind": "correspondence", "note": f"{len(bad)} of {len(results)} {what} raised inside the code under test",
+                       "exception": bad[0]["code_exception"]}, False,
+                      f"{prop}: {len(bad)} of {len(results)} {what} raise inside the code under test ({bad[0]['code_exception']}); "
+                      f"the property could not be exercised on them")
+    return [r for r in results if not r.get("code_exception")], len(bad)
 
 
 def pmap(fn, arglist, procs=None):
